@@ -214,6 +214,25 @@ def run(ctx):
         cl = pp.PageParser.compute_line_confidence(line)
         if not (-1e-12 <= cl <= 1 + 1e-12):
             ctx.violation('range:compute_line_confidence', 'line confidence outside [0,1]', inp, float(cl))
+        # reference from the stored sparse logits themselves (0.0 = pruned = floor -80): the smallest, over runs of frames with the same
+        # best symbol, of the largest posterior of that symbol within the run
+        dz = np.asarray(line.logits.toarray(), dtype=np.float64)
+        dz[dz == 0] = -80.0
+        pz = np.exp(dz - np.logaddexp.reduce(dz, axis=1)[:, np.newaxis])
+        ids_z, best_z = pz.argmax(axis=1), pz.max(axis=1)
+        srt = np.sort(pz, axis=1)
+        if pz.shape[1] < 2 or (srt[:, -1] - srt[:, -2]).min() > 1e-9:
+            runs, prev = [], None
+            for i_z, b_z in zip(ids_z, best_z):
+                if i_z == prev:
+                    runs[-1] = max(runs[-1], b_z)
+                else:
+                    runs.append(b_z)
+                    prev = i_z
+            ref_cl = min(runs) if runs else 1.0
+            if abs(float(cl) - ref_cl) > 1e-9:
+                ctx.violation('line-confidence-value', 'the line confidence is not the smallest (over runs of frames with the same best symbol) of the largest '
+                              'normalised posterior within the run', inp, float(cl), float(ref_cl))
         med = float(np.quantile(conf, .5)) if conf else None
         if len(labels) >= 2 and any(1e-9 < c < 1 - 1e-9 for c in conf):
             ctx.nontriv(inp)
